@@ -2,6 +2,7 @@ import Driver.Util
 import Driver.Ctl
 import Driver.Codec
 import Driver.Ops
+import Driver.SpecP
 open Lean Driver
 
 def handle (line : String) : Verdict :=
@@ -13,6 +14,7 @@ def handle (line : String) : Verdict :=
       if mode == "ctl" then CtlReplay.replay j
       else if mode == "codec" then CodecReplay.replay j
       else if mode == "ops" then OpsReplay.replay j
+      else if mode == "spec" then SpecReplay.replay j
       else .error ("unknown mode " ++ mode)
     match r with
     | .ok v => v
